@@ -112,7 +112,68 @@ func mutateStructure(p *Program, intn func(int) int) string {
 			top[n] = true
 		}
 	}
-	switch intn(6) {
+	switch intn(7) {
+	case 6: // the two binders of one receive or split spelled alike
+		s := pick(func(t Term) bool {
+			switch t.(type) {
+			case *Recv, *Split:
+				return true
+			}
+			return false
+		})
+		if s == nil {
+			return ""
+		}
+		switch x := (*s).(type) {
+		case *Recv:
+			// the binder that disappears may have been consumed by a plain wait/drop: that use
+			// goes too, so that the rest of the body still makes sense to the checker
+			lost, kept := x.X, x.Y
+			if intn(4) == 0 {
+				lost, kept = x.Y, x.X
+			}
+			x.X, x.Y = kept, kept
+			var sub []*Term
+			var walk func(sl *Term)
+			walk = func(sl *Term) {
+				sub = append(sub, sl)
+				switch y := (*sl).(type) {
+				case *Recv:
+					walk(&y.K)
+				case *Case:
+					for i := range y.Brs {
+						walk(&y.Brs[i].K)
+					}
+				case *New:
+					walk(&y.K)
+				case *Wait:
+					walk(&y.K)
+				case *Split:
+					walk(&y.K)
+				case *Drop:
+					walk(&y.K)
+				case *Print:
+					walk(&y.K)
+				case *Shift:
+					walk(&y.K)
+				}
+			}
+			walk(&x.K)
+			for _, sl := range sub {
+				if y, ok := (*sl).(*Wait); ok && y.X == lost {
+					*sl = y.K
+					break
+				}
+				if y, ok := (*sl).(*Drop); ok && y.X == lost {
+					*sl = y.K
+					break
+				}
+			}
+			return fmt.Sprintf("receive from %s: both binders spelled %s (the use of %s removed)", x.From, kept, lost)
+		case *Split:
+			x.X2 = x.X1
+			return fmt.Sprintf("split of %s: both binders spelled %s", x.From, x.X1)
+		}
 	case 0: // a consuming use removed: `wait x; K` / `drop x; K` becomes K
 		s := pick(func(t Term) bool {
 			switch x := t.(type) {
@@ -228,7 +289,51 @@ func mutateStructure(p *Program, intn func(int) int) string {
 
 // Mutate applies one mutation in place and describes it ("" if none applied).
 func Mutate(p *Program, intn func(int) int) string {
-	switch intn(20) {
+	switch intn(22) {
+	case 20, 21: // a second definition under the name of a called one, with a different arity, in front of it
+		if p.Order != nil || len(p.Defs) < 2 {
+			return ""
+		}
+		called := map[string]bool{}
+		for _, t := range allTerms(p) {
+			if x, ok := t.(*Call); ok {
+				called[x.F] = true
+			}
+		}
+		var gs []*Def
+		for _, d := range p.Defs {
+			if called[d.Name] && len(d.Params) >= 1 {
+				gs = append(gs, d)
+			}
+		}
+		if len(gs) == 0 {
+			return ""
+		}
+		g := gs[intn(len(gs))]
+		// the interpreter resolves f(x1..xn) to the first definition with n or n-1 parameters
+		// (explicit-self convention): prefer a donor with one parameter less
+		var donors, any []*Def
+		for _, d := range p.Defs {
+			if d == g || d.Prov != "" {
+				continue
+			}
+			if len(d.Params) == len(g.Params)-1 {
+				donors = append(donors, d)
+			} else if len(d.Params) != len(g.Params) {
+				any = append(any, d)
+			}
+		}
+		if len(donors) == 0 || intn(4) == 0 {
+			donors = append(donors, any...)
+		}
+		if len(donors) == 0 {
+			return ""
+		}
+		d := donors[intn(len(donors))]
+		cp := *d
+		cp.Name = g.Name
+		p.Defs = append([]*Def{&cp}, p.Defs...)
+		return fmt.Sprintf("a copy of %s/%d inserted in front under the name %s (which has %d parameters)", d.Name, len(d.Params), g.Name, len(g.Params))
 	case 15, 16, 17, 18, 19:
 		if d := mutateStructure(p, intn); d != "" {
 			return "structure: " + d
